@@ -174,6 +174,9 @@ func evalNear(c *NearCase, kind string, src []byte, baseErased, key, pfx string)
 	}
 }
 
+var replPool = []string{"zz", "1", "1.5", `"s"`, "(", ")", "[", "]", "{", "}", ",", "=", "==", ":", ";", ".", "+", "-", "*", "**",
+	"not", "in", "if", "else", "for", "lambda", "and", "or", "|", "^", "<", "+=", "pass", "return"}
+
 // nearBase builds a small valid case laid out plainly on single lines.
 func nearBase(kind string, rc *hx.Rand) (*built, *observed) {
 	for {
@@ -247,6 +250,7 @@ func modeNear(n int, fam *hx.Rand) {
 			}
 			return ps
 		}
+		replRaw := "" // replacement text for the "repl" mutation
 		mutate := func(kindM string, at int) (string, bool) {
 			line := rts[at].line
 			var raws []string
@@ -265,6 +269,12 @@ func modeNear(n int, fam *hx.Rand) {
 				raws = append(append([]string{}, raws[:k]...), raws[k+1:]...)
 			case "dup":
 				raws = append(append(append([]string{}, raws[:k+1]...), raws[k]), raws[k+1:]...)
+			case "repl":
+				if raws[k] == replRaw {
+					return "", false
+				}
+				raws = append([]string{}, raws...)
+				raws[k] = replRaw
 			case "swap":
 				if k+1 >= len(raws) {
 					return "", false
@@ -296,6 +306,44 @@ func modeNear(n int, fam *hx.Rand) {
 				}
 				c := NearCase{Kind: "near", Mode: kind, Base: i, Mut: fmt.Sprintf("%s@%d", km, at), BaseSrc: string(b.src), Src: text, Coq: b.coq, OK: true}
 				evalNear(&c, kind, []byte(text), baseErased, "near:"+kind+":"+km, "near")
+				hx.Emit(c)
+			}
+		}
+		// fourth mutation: replace one token by a token from a pool.  Its own
+		// generator, drawn after everything above, so the del/dup/swap records
+		// of a seed are unchanged; the repl records follow them.
+		rr := rc.Split()
+		var rpos []int
+		picks := 3
+		if len(rts) <= 15 {
+			for j := range rts {
+				rpos = append(rpos, j)
+			}
+		} else {
+			picks = 2
+			seen := map[int]bool{}
+			for len(rpos) < 10 {
+				j := rr.Intn(len(rts))
+				if !seen[j] {
+					seen[j] = true
+					rpos = append(rpos, j)
+				}
+			}
+		}
+		for _, at := range rpos {
+			// the name of a keyword argument / default parameter always gets a literal too
+			kwName := at > 0 && at+1 < len(rts) && rts[at+1].raw == "=" && (rts[at-1].raw == "(" || rts[at-1].raw == ",")
+			for k := 0; k < picks || (kwName && k == picks); k++ {
+				replRaw = hx.Pick(rr, replPool)
+				if k == picks {
+					replRaw = "1"
+				}
+				text, ok := mutate("repl", at)
+				if !ok {
+					continue
+				}
+				c := NearCase{Kind: "near", Mode: kind, Base: i, Mut: fmt.Sprintf("repl@%d:%s", at, replRaw), BaseSrc: string(b.src), Src: text, Coq: b.coq, OK: true}
+				evalNear(&c, kind, []byte(text), baseErased, "near:"+kind+":repl", "near")
 				hx.Emit(c)
 			}
 		}
